@@ -29,10 +29,32 @@ def run_items(run: Run, items, name: str, *, jvms=4, workers=4, timeout=3000, ma
                 f.write('\n')
         paths.append(p)
 
+    eval_errors = []
+
     def one(j):
-        rc, out, wall = tlc.run_tlc(module, cfg, {'ITEMS': paths[j]}, os.path.join(d, f'meta_{j}'), workers=workers, timeout=timeout)
-        with open(os.path.join(d, f'tlc_{j}.log'), 'w') as f:
-            f.write(out)
+        # an item on which the specification cannot be evaluated at all (the code's answer is not even of the expected
+        # shape) stops TLC with an evaluation error: that item is reported, taken out, and the shard is judged again
+        outs = []
+        for attempt in range(10):
+            rc, out, wall = tlc.run_tlc(module, cfg, {'ITEMS': paths[j]}, os.path.join(d, f'meta_{j}_{attempt}'), workers=workers,
+                                        timeout=timeout)
+            with open(os.path.join(d, f'tlc_{j}_{attempt}.log'), 'w') as f:
+                f.write(out)
+            if 'Model checking completed' in out or 'Error:' not in out:
+                return j, rc, out
+            mi = re.findall(r'^/\\ i = (\d+)', out, re.M)
+            if not mi:
+                return j, rc, out
+            k = int(mi[-1])
+            reason = re.search(r'Reason:\s*(.*?)\n\d+ states generated', out, re.S)
+            eval_errors.append({'index': shards[j][k - 1], 'kind': 'eval-error',
+                                'text': 'the specification cannot be evaluated on this answer: ' + (reason.group(1) if reason else '')[:600]})
+            with open(paths[j]) as f:
+                ls = f.readlines()
+            del ls[k - 1]
+            del shards[j][k - 1]
+            with open(paths[j], 'w') as f:
+                f.writelines(ls)
         return j, rc, out
     t0 = time.time()
     with ThreadPoolExecutor(max_workers=jvms) as ex:
@@ -50,6 +72,7 @@ def run_items(run: Run, items, name: str, *, jvms=4, workers=4, timeout=3000, ma
             if m:
                 k = int(m.group(1))
                 mism.append({'index': shards[j][k - 1], 'kind': m.group(2), 'text': m.group(3).strip()})
+    mism.extend(eval_errors)
     run.evaluations += len(items)
     nv = 0
     for m in mism:
